@@ -11,8 +11,9 @@ replay = _bc.replay
 
 RULE = ("alphabet: makeRequest (reply / no-reply), cancel, broker frames, whole-buffer delivery, accept / refuse of "
         "every connection attempt (refusals repeat), drop in every state (before, between and after frames, while "
-        "requests are queued), clean close after disconnect(), backoff timers, close().  retryPolicy(k)=0.5k so "
-        "delays identify the failure count.  Oracle: per connection the broker receives exactly the unanswered, "
+        "requests are queued), clean close after disconnect(), backoff timers, close(), connect() failing "
+        "synchronously.  retryPolicy(k)=0.5k (9k in the plan with synchronous failures) so delays identify the "
+        "failure count.  Oracle: per connection the broker receives exactly the unanswered, "
         "uncancelled requests in issue order, each once, then later requests in issue order; answered, cancelled and "
         "no-reply requests never reappear; a drop with pending requests starts an attempt at once, an idle drop none; "
         "attempt after k consecutive refusals happens exactly 0.5k later and k resets after a success; close() fails "
@@ -30,4 +31,9 @@ def run(tier, seed, only=None):
     else:
         plans = [("drops-3req", dict(base, max_reqs=3), 11),
                  ("drops-2req-deep", dict(base, max_reqs=2, noreply=False), 13)]
+    # connect() failing synchronously (the endpoint returns an already failed Deferred), and a retry policy whose
+    # delays exceed any built-in constant (9 s per failure)
+    plans.append(("sync-connect-failure", dict(base, max_reqs=2, noreply=False, sync_refuse=2, retry_base=9.0,
+                                               ops=["req", "cancel", "conn", "drop", "timer", "close"]),
+                  9 if tier == "quick" else 12))
     return _bc.run_bfs(PROPERTY, plans, seed, RULE, ASSUME)
